@@ -22,7 +22,7 @@ ASSUMPTIONS = ['"well conditioned" is made checkable as cond_2(A) <= 1e3 on the 
                'default nswp=22, kickrank=4, local_iterations=40, resets=2']
 REQUIRED_REACH = ['solvers:amen_solve', 'solvers:_amen_solve_python', '_iterative_solvers:gmres_restart', '_iterative_solvers:BiCGSTAB_reset', 'solvers:_LinearOp.apply_prec',
                   'solvers:_LinearOp.matvec', 'solvers:_local_product']
-REQUIRED_COUNTS = {'ran:gmres': 5, 'ran:bicgstab': 5, 'ran:direct': 5, 'ran:prec': 5, 'class:spd': 1, 'class:dd': 1, 'class:lap': 1, 'class:cd': 1, 'option:band_diagonal': 5, 'x0:user': 1, 'x0:near': 3, 'x0:degenerate': 4, 'executions': 150}
+REQUIRED_COUNTS = {'ran:gmres': 5, 'ran:bicgstab': 5, 'ran:direct': 5, 'ran:prec': 5, 'class:spd': 1, 'class:dd': 1, 'class:lap': 1, 'class:cd': 1, 'option:band_diagonal': 5, 'operator-cores-noncontiguous': 20, 'x0:user': 1, 'x0:near': 3, 'x0:degenerate': 4, 'executions': 150}
 LINE_FUNCS = ['_amen_solve_python', 'BiCGSTAB_reset', 'gmres', '_LinearOp.matvec']
 CASE_TIMEOUT = {'quick': 300, 'thorough': 600}
 MAX_TIMEOUT_FRACTION = 0.0
@@ -136,6 +136,18 @@ def build_system(case, ctx, g):
             nb = float(torch.linalg.matrix_norm(Bm, 2))
             e = min(0.5, case['cfac'] / 200.0) / max(nb, 1e-300)
             A = ctx.call('TTM+TTM', lambda i, m: i + e * m, I, B)
+    # memory layout of the operator (and, below, of the right-hand side): same numbers, other strides - what t(), round() and slicing hand out
+    layout = ['contiguous', 'contiguous', 'permuted-views', 't().t()', 'buffer-views', 'round(0)'][case['vseed'] % 6]
+    if layout == 'permuted-views':
+        A = torchtt.TT([c.permute(*reversed(range(c.dim()))).contiguous().permute(*reversed(range(c.dim()))) for c in A.cores])
+    elif layout == 't().t()':
+        A = ctx.call('t', lambda a: a.t().t(), A)
+    elif layout == 'buffer-views':
+        A = torchtt.TT(gens.buffer_views([c.clone() for c in A.cores]))
+    elif layout == 'round(0)':
+        A = ctx.call('round', lambda a: a.round(1e-15), A)
+    ctx.count('operator-layout:' + layout)
+    ctx.count('operator-cores-noncontiguous' if any(not c.is_contiguous() for c in A.cores) else 'operator-cores-contiguous')
     Am = dn.D(A).reshape(n, n)
     cond = float(torch.linalg.cond(Am, 2))
     if case['rhs'] == 'image':
@@ -144,6 +156,8 @@ def build_system(case, ctx, g):
         case['_xt'] = xt
     else:
         b = gens.make_tt(N, case['Rb'], dt, 'gauss', g)
+    if layout in ('permuted-views', 't().t()'):
+        b = torchtt.TT([c.permute(2, 1, 0).contiguous().permute(2, 1, 0) for c in b.cores])
     return A, b, Am, cond
 
 
